@@ -181,7 +181,14 @@ Definition is1 (p : pvars) : bool := nthz (ival p) 0 =? 49.
 Definition setb (c : list Z) (off v : Z) : list Z := upd c off v.
 Definition bit (c : list Z) (off k : Z) (on : bool) : list Z :=
   upd c off (if on then Z.lor (nthz c off) (2 ^ k) else Z.land (nthz c off) (255 - 2 ^ k)).
+(* a value of more than 9 characters cannot be valid (and would overflow int): rejected (docs/fixes/C14_numeric_acceptance.diff) *)
+Definition short_num (p : pvars) : bool := strnlen (ival p) INTVAL_SIZE <=? 9.
+(* cfg_str2margin: the range is checked before the value is narrowed to signed char *)
 Definition margin (c : list Z) (i : Z) (p : pvars) : list Z :=
+  let v := str2int (ival p) in
+  upd c (O_AdditionalTimeMargin + i) (u8 (if negb (short_num p) || (v <? -1) || (100 <? v) then -1 else v)).
+(* the code before that repair: narrowed to signed char first, then checked *)
+Definition margin_old (c : list Z) (i : Z) (p : pvars) : list Z :=
   let v := s8 (str2int (ival p)) in
   upd c (O_AdditionalTimeMargin + i) (u8 (if (v <? -1) || (100 <? v) then -1 else v)).
 
@@ -214,11 +221,11 @@ Definition action (sg : bool) (p : pvars) (m : mem) : mem :=
   else if v =? VAR_TRG then cf (setb c O_Trigger (digit0 p))
   else if v =? VAR_PRT then
     let port := str2int (ival p) in
-    if (0 <? port) && (port <=? 65535) then cf (blit c O_LocationID (enc32 port)) else m
+    if (0 <? port) && (port <=? 65535) && short_num p then cf (blit c O_LocationID (enc32 port)) else m
   else if v =? VAR_TLS then cf (flag_set c F_MQTT_TLS (is1 p))
   else if v =? VAR_QOS then
     let q := nthz (ival p) 0 in
-    if (48 <=? q) && (q <=? 50) then cf (setb c O_MqttQoS (q - 48)) else m
+    if (48 <=? q) && (q <=? 50) && (nthz (ival p) 1 =? 0) then cf (setb c O_MqttQoS (q - 48)) else m
   else if v =? VAR_RET then cf (flag_set c F_MQTT_NO_RETAIN (is1 p))
   else if v =? VAR_MAU then cf (flag_set c F_MQTT_NO_AUTH (negb (is1 p)))
   else if v =? VAR_PPD then
